@@ -504,10 +504,13 @@ def c08(scn, x, worker_facts):
                 if state in ROOT_STATES or perm:
                     continue
                 loc = e["locs"].get(suffix)
+                expected = set(passed_by[(suffix, variant, state)])
                 if loc is None:
+                    if expected:
+                        out.append({"what": f"{e['short']} on {e['w']} is given no source location at all for {state} of {suffix} although {sorted(expected)} produced it in this run",
+                                    "signature": {"clause": "producer-not-named", "state": state, "no_location": True}})
                     continue
                 named = [l.partition(":")[0] for l in loc.split()]
-                expected = set(passed_by[(suffix, variant, state)])
                 named_workers = {n for n in named if n}
                 if "" not in named:
                     out.append({"what": f"{e['short']} on {e['w']}: the shared pool is not named as a source for {state} of {suffix} ({loc!r})",
